@@ -160,17 +160,18 @@ theorem commit_blockBatch_lookups (p : Params) (m : Mem) (b : Block) (db : Block
 
 /-! ### the chain invariant -/
 
-/-- no hash collision between `b` and what the ledger already holds: a stored block with the hash of `b` is `b`, a
-cached header with that hash is the header of `b`; and the hash of `b` is not the all-zero value that
-`loadHeaderIndexList` treats as "no hash" -/
+/-- what "no hash collision between `b` and the objects the ledger already holds" is needed for: a stored block with
+the hash of `b` has the height of `b`, a cached header with that hash has its timestamp (both are hashed fields, so
+this follows from collision-freedom of the header hash: `LedgerHash.lean`); and the hash of `b` is not the all-zero
+value that `loadHeaderIndexList` treats as "no hash" -/
 def NoColl (s : State) (b : Block) : Prop :=
-  (∀ blk, s.dur.blocks.blockAt b.header.hash = some blk → blk = b) ∧
-  (∀ hd ∈ s.mem.cache, hd.hash = b.header.hash → hd = b.header) ∧
+  (∀ blk, s.dur.blocks.blockAt b.header.hash = some blk → blk.header.height = b.header.height) ∧
+  (∀ hd ∈ s.mem.cache, hd.hash = b.header.hash → hd.timestamp = b.header.timestamp) ∧
   b.header.hash ≠ zeroHash
 
-/-- a header delivered ahead of its block does not collide with a stored block -/
+/-- a header delivered ahead of its block does not collide with a stored block (same hash ⇒ same timestamp) -/
 def NoCollH (s : State) (hd : Header) : Prop :=
-  ∀ blk, s.dur.blocks.blockAt hd.hash = some blk → blk.header = hd
+  ∀ blk, s.dur.blocks.blockAt hd.hash = some blk → blk.header.timestamp = hd.timestamp
 
 /-- the committed blocks form one hash-linked chain with strictly increasing timestamps, the block accumulator holds
 exactly their previous-block hashes, nothing else is stored, and cached headers agree with stored blocks -/
@@ -184,7 +185,7 @@ structure Chain (g : Block) (s : State) : Prop where
     bj.header.prev = bi.header.hash ∧ bi.header.timestamp < bj.header.timestamp
   acc : s.mem.blockTree = g.header.prev :: (List.range s.mem.currHeight).map (fun i => (s.dur.blocks.hashAt i).getD [])
   bounded : ∀ h blk, s.dur.blocks.blockAt h = some blk → blk.header.hash = h ∧ blk.header.height ≤ s.mem.currHeight
-  cacheOK : ∀ hd ∈ s.mem.cache, ∀ blk, s.dur.blocks.blockAt hd.hash = some blk → blk.header = hd
+  cacheOK : ∀ hd ∈ s.mem.cache, ∀ blk, s.dur.blocks.blockAt hd.hash = some blk → blk.header.timestamp = hd.timestamp
 
 theorem cacheFind_some (c : List Header) (h : Hash) (hd : Header) (hf : cacheFind c h = some hd) :
     hd ∈ c ∧ hd.hash = h := by
@@ -196,7 +197,7 @@ theorem cacheFind_some (c : List Header) (h : Hash) (hd : Header) (hf : cacheFin
 /-- the header `verifyHeader` finds for the tip hash is the header of the tip block -/
 theorem headerByHash_tip (g : Block) (s : State) (hc : Chain g s) (prevH : Header) (tipB : Block)
     (ht : s.dur.blocks.blockAt s.mem.currHash = some tipB)
-    (h : headerByHash s s.mem.currHash = some prevH) : prevH = tipB.header := by
+    (h : headerByHash s s.mem.currHash = some prevH) : prevH.timestamp = tipB.header.timestamp := by
   unfold headerByHash at h
   split at h
   · rename_i hd hf
@@ -206,7 +207,8 @@ theorem headerByHash_tip (g : Block) (s : State) (hc : Chain g s) (prevH : Heade
     have := hc.cacheOK hd hm tipB (by rw [hh]; exact ht)
     exact this.symm
   · rw [ht] at h
-    simpa using h.symm
+    have : tipB.header = prevH := by simpa using h
+    rw [this]
 
 /-- one committed block extends the chain -/
 theorem chain_step (g : Block) (s s' : State) (b : Block) (hc : Chain g s)
@@ -225,7 +227,6 @@ theorem chain_step (g : Block) (s s' : State) (b : Block) (hc : Chain g s)
     intro blk hb hle e
     rw [e] at hb
     have := hnc.1 blk hb
-    subst this
     omega
   obtain ⟨tipB, t1, t2, t3⟩ := hc.stored s.mem.currHeight (Nat.le_refl _)
   have htipHash : tipB.header.hash = s.mem.currHash := by
